@@ -271,6 +271,8 @@ fn write_keys_map_to_disk(keys: HashMap<String, u64>) {
         .write(true)
         .open(keys_file_name)
         .unwrap();
+    #[cfg(nundb_verif)]
+    crate::verif_hooks::record_key_order(keys.iter().map(|(k, v)| format!("{}={}", k, v)).collect());
     bincode::serialize_into(&mut keys_file, &keys.clone()).unwrap();
 }
 
